@@ -90,8 +90,27 @@ TRACK = [0, 1, 9]
 
 STRS = ["n1", "12-3", "a_b", "Etude Op. 10 No. 3", "/path/to/file_1.mid", "Sonata, K. 331 (I)", "Frèdéryk"]
 
+# free text of info lines: all sequences over the characters that structure a match line (brackets,
+# full stop, comma, quote, list brackets, dash, the word that opens an info line) and plain text
+TEXT_TOKENS = ["a", "1", " ", "(", ")", ".", ",", "'", "[", "]", "-", "info("]
+TEXT_TOKENS_X = TEXT_TOKENS + ['"', "\\", ":", "/", "é"]
+
+
+def text_strings(tokens, length, exclude=()):
+    """all concatenations of `length` tokens without leading/trailing white space (the formats strip
+    it) and without the tokens in `exclude`; duplicates-free, in enumeration order"""
+    toks = [t for t in tokens if t not in exclude]
+    seen = set()
+    for seq in itertools.product(toks, repeat=length):
+        s = "".join(seq)
+        if s != s.strip() or s in seen:
+            continue
+        seen.add(s)
+        yield s
+
+
 MODES = ["major", "minor"]
-KEYS30 = [[f, m, None, None, []] for m in MODES for f in range(-7, 8)]
+KEYS30 =[[f, m, None, None, []] for m in MODES for f in range(-7, 8)]
 
 
 def key(f, m, fa=None, ma=None, others=()):
